@@ -69,7 +69,8 @@ def run(rep, ctx):
     _REPO[0] = repo
     fn = [r"mp::ConstraintKeeper::(ComputeValue|ComputeViolations)", r"mp::ComputeValue", r"mp::ComputeValue::.*", r"mp::ComputeViolation",
           r"mp::[A-Za-z_0-9]+::ComputeViolation", r"mp::Violation::Check", r"mp::SolutionChecker::.*",
-          r"mp::pre::ValuePresolver::PostsolveSolution", r"mp::ViolSummary::.*"]
+          r"mp::pre::ValuePresolver::PostsolveSolution", r"mp::ViolSummary::.*",
+          r"mp::VarInfoImpl::(is_at_lb|is_at_ub|is_nonzero|is_positive|bounds_viol|feastol|is_var_int)"]
     d = export_closure(depth=1, roots=r"^mp::(ConstraintKeeper::ComputeViolations|SolutionChecker::CheckVars|Violation::|pre::ValuePresolver::PostsolveSolution)", unit=U, fn=fn, enum=[r"mp::Context::CtxVal", r"mp::sol::Status"], repo=repo)
     cg = export(U, callgraph=True, repo=repo)["callgraph"]
     F = Facts([d])
@@ -680,6 +681,90 @@ def run(rep, ctx):
              "the upper-bound check is not (x - ub(i), reference ub(i)): %s - with the wrong reference value the relative tolerance is applied to another number and violations are missed or invented" % [g_ for g_ in got if len(g_) == 5 and any("ub(i)" in k_ for k_ in g_[1])])
     v1.check(any(len(g_) == 5 and "VarViolIntty" in g_[0] and len(g_[1]) == 1 and list(g_[1])[0].replace(")", "") == "fabs(x-round(x" and g_[2] == "round(x)" and "sol_int_tol()" in g_[3] for g_ in got), "integrality", short_loc(cvf.loc),
              "integrality: |x - round(x)| against sol:chk:inttol for integer variables", str(got))
+
+    # ---- E3: value predicates of the point under check, and the complementarity measure built on them -----------------
+    e3 = rep.rule("C07.E3", "TABLE", "point predicates (at lower / upper bound, nonzero, positive, bound violation) and the complementarity violation "
+                  "evaluated on sample values", floor=5)
+    INFV = float("inf")
+
+    def vi_eval(g, X_, L_, U_, T_, INT_):
+        box = {}
+
+        def atom(t_, n_, env_):
+            t_ = t_.replace("this->", "").replace(" ", "")
+            if n_["k"] == "CXXOperatorCallExpr" and n_.get("op") == "[]":
+                b_ = render(call_args(n_)[0]).replace(" ", "").replace("this->", "")
+                return {"lb_": L_, "ub_": U_, "x_": X_}.get(b_, X_ if "this" in b_ else None)
+            if n_["k"] == "ArraySubscriptExpr":
+                b_ = render(kids(n_)[0]).replace(" ", "").replace("this->", "")
+                return {"lb_": L_, "ub_": U_, "x_": X_}.get(b_)
+            if t_ == "feastol_":
+                return T_
+            if n_["k"] == "CXXMemberCallExpr" and (n_.get("callee") or "").endswith("::is_var_int"):
+                return INT_
+            if n_["k"] == "CXXMemberCallExpr" and (n_.get("callee") or "").endswith("::size"):
+                return 100
+            if n_["k"] == "CallExpr" and (n_.get("callee") or "").split("::")[-1] in ("fabs", "abs") and len(call_args(n_)) == 1:
+                return abs(box["mi"].expr(call_args(n_)[0], env_, 0))
+            return None
+        mi = MiniInt(F, atom)
+        box["mi"] = mi
+        return mi.call(g, [3])
+    vi = {g.name: g for g in funcs if g.qn.startswith("mp::VarInfoImpl::")}
+    SPEC = {"is_at_lb": lambda X, L, U, T, I: X - L <= T, "is_at_ub": lambda X, L, U, T, I: U - X <= T,
+            "is_nonzero": lambda X, L, U, T, I: abs(X) >= (0.5 if I else T), "is_positive": lambda X, L, U, T, I: X >= (0.5 if I else T),
+            "bounds_viol": lambda X, L, U, T, I: max(L - X, X - U)}
+    for nm_, spec_ in SPEC.items():
+        if nm_ not in vi:
+            raise AnalysisBroken("C07.E3: VarInfoImpl::%s not found" % nm_)
+        badp = []
+        for X_ in (-2.0, 0.0, 5e-7, 0.3, 0.7, 5.0, 10.0 - 5e-7, 10.0, 12.0):
+            for L_, U_ in ((0.0, 10.0), (0.0, INFV), (-INFV, 10.0)):
+                for I_ in (0, 1):
+                    try:
+                        got_ = vi_eval(vi[nm_], X_, L_, U_, 1e-6, I_)
+                    except AnalysisBroken as e_:
+                        raise AnalysisBroken("C07.E3: %s: %s" % (nm_, e_))
+                    want_ = spec_(X_, L_, U_, 1e-6, I_)
+                    if (bool(got_) != bool(want_)) if nm_ != "bounds_viol" else (got_ != want_):
+                        badp.append((X_, L_, U_, I_, got_))
+        e3.check(not badp, "predicate|%s" % nm_, short_loc(vi[nm_].loc), "%s agrees with its definition on 54 (value, bounds, type) samples" % nm_,
+                 "%s at (value, lb, ub, integer, result) = %s: the checks built on it (complementarity, indicator, SOS) then miss or invent violations" % (nm_, badp[:3]))
+    cc_ = [g for g in funcs if g.qn == "mp::ComplementarityConstraint::ComputeViolation"]
+    for g in cc_[:1]:
+        badc = []
+        for a_ in (0, 1):
+            for b_ in (0, 1):
+                for ve_ in (-3.0, 2.0):
+                    box = {}
+
+                    def atom(t_, n_, env_):
+                        if n_["k"] == "CXXMemberCallExpr":
+                            cn_ = (n_.get("callee") or "").split("::")[-1]
+                            if cn_ == "is_at_lb":
+                                return a_
+                            if cn_ == "is_at_ub":
+                                return b_
+                            if cn_ == "ComputeValue":
+                                return ve_
+                        if n_["k"] == "CallExpr" and (n_.get("callee") or "").split("::")[-1] in ("fabs", "abs") and len(call_args(n_)) == 1:
+                            return abs(box["mi"].expr(call_args(n_)[0], env_, 0))
+                        if n_["k"] == "InitListExpr" or (n_["k"] in ("CXXConstructExpr", "CXXTemporaryObjectExpr") and "Violation" in (n_.get("callee") or n_.get("ct") or "")):
+                            ks_ = [x for x in kids(n_) if x is not None]
+                            if ks_:
+                                return box["mi"].expr(ks_[0], env_, 0)
+                        return None
+                    mi = MiniInt(F, atom)
+                    box["mi"] = mi
+                    try:
+                        got_ = mi.call(g, [("obj", None, None)])
+                    except AnalysisBroken as e_:
+                        raise AnalysisBroken("C07.E3: ComplementarityConstraint::ComputeViolation: %s" % e_)
+                    want_ = -ve_ if a_ else (ve_ if b_ else abs(ve_))
+                    if got_ != want_:
+                        badc.append((a_, b_, ve_, got_))
+        e3.check(not badc, "complementarity-measure", short_loc(g.loc), "violation: -expr at the lower bound, expr at the upper bound, |expr| strictly inside",
+                 "(at lb, at ub, expression value, violation) = %s" % badc[:3])
 
     h1 = rep.rule("C07.H1", "PATH", "the check runs in the postsolve of every solution", floor=1)
     ps = one("mp::pre::ValuePresolver::PostsolveSolution")
